@@ -95,6 +95,7 @@ func harnessOverlay(extra map[string][]byte) map[string][]byte {
 
 func newCtx(id, tier string, seed int64, level string, extra map[string][]byte) *Ctx {
 	c := &Ctx{ID: id, Tier: tier, Seed: seed, Level: level, T0: time.Now(), cov: map[string]interface{}{}, kf: loadKnown()}
+	cleanStaleWork()
 	c.Work = filepath.Join(verifDir, ".work", fmt.Sprintf("%s-%d", id, os.Getpid()))
 	os.RemoveAll(c.Work)
 	if err := os.MkdirAll(c.Work, 0o755); err != nil {
@@ -392,5 +393,25 @@ func (a *Agg) Into(c *Ctx, prefix string) {
 	}
 	if len(a.RefAssumes) > 0 {
 		c.Cov(prefix+"reference_side_assumptions", a.RefAssumes)
+	}
+}
+
+// cleanStaleWork removes scratch directories left behind by runs that were killed.
+func cleanStaleWork() {
+	ents, _ := os.ReadDir(filepath.Join(verifDir, ".work"))
+	for _, e := range ents {
+		name := e.Name()
+		i := strings.LastIndex(name, "-")
+		if i < 0 || !e.IsDir() {
+			continue
+		}
+		pid := 0
+		fmt.Sscan(name[i+1:], &pid)
+		if pid <= 0 {
+			continue
+		}
+		if _, err := os.Stat(fmt.Sprintf("/proc/%d", pid)); err != nil {
+			os.RemoveAll(filepath.Join(verifDir, ".work", name))
+		}
 	}
 }
